@@ -84,6 +84,10 @@ class NaiveForecaster(_OptionalForecastingHorizonMixin, _BaseWindowForecaster):
         self._set_y_X(y, X)
         self._set_fh(fh)
 
+        # validate the parameters whether or not the chosen strategy uses them
+        check_sp(self.sp)
+        check_window_length(self.window_length)
+
         if self.strategy == "last":
             if self.sp == 1:
                 if self.window_length is not None:
